@@ -112,7 +112,7 @@ def slim(r):
 def run(ctx):
     ctx.add_obligations(vcheck.coq_props("Exec", "C20"))
     ctx.cov["checker_cmd"] = "coqc -Q coq/Exec BWExec coq/Exec/Props/C20.v; work/bin/h_fault -seed S -n N | model evaluated by vm_compute (coq/Exec/Corr.v fault_agrees)"
-    n = 600 if ctx.tier == "thorough" else 45
+    n = 600 if ctx.tier == "thorough" else 36
     runs = hfault(["-seed", str(ctx.seed), "-n", str(n)])
     open_findings = {f.get("class"): f for f in vcheck.known_findings("C20")}
     reproduced = collections.Counter()
